@@ -1,6 +1,7 @@
 ------------------------------ MODULE GameNetMC ------------------------------
 (* Model checking of the description interpreter (C14) and export of the boundary
-   sweep. One state per vector <<section, message, slot, k>> (GameNet!VecIds).
+   sweep. One state per vector: <<section, message, slot, k>> (GameNet!VecIds, family "main") and
+   the families pair / ienc / demo / build (GameNet!AllIds).
 
    MC_GameNet.cfg   INVARIANT LawInv   the law below on every vector
    Exp_GameNet.cfg  INVARIANT ExpInv   the same law, and every vector is printed
@@ -11,17 +12,42 @@ EXTENDS GameNet
      canon    well-formed by the description, no warning, encode(decode) = input       -> must hold
      reject   a constraint for which datatypes.py generates a check is violated         -> must be Err
      unknown  identifier not in the description                                          -> must be Err
-     accept   readable but not canonical (warning / different re-encoding / no encode)   -> detailed spec only *)
-Eval(id) == LET in == VecInput(id) IN
-            [in |-> in, x |-> ParseAny(EntryOf(id[1]), in.ord, in.uuid, in.data)]
-Expect(ev) ==
+     accept   readable but not canonical (warning / different re-encoding / no encode)   -> detailed spec only
+     soft     a reading the property text does not talk about (demo padding, an integer whose padding
+              bit changes the value): every difference is a deviation from the detailed spec only
+     precond  the precondition of Unpacker::new_from_demo fails (documented assertion)
+     none     no input (build family: the values go to `encode`) *)
+Eval(id) == LET in == IF Fam(id) = "build" THEN [ord |-> 0, uuid |-> <<>>, data |-> <<>>] ELSE FInput(id) IN
+            [in |-> in, x |-> IF Fam(id) = "build" THEN [r |-> "none"]
+                              ELSE ParseAny(FEntry(id), in.ord, in.uuid, in.data)]
+Soft(id) == \/ Fam(id) = "ienc" /\ id[5] = 5
+            \/ Fam(id) = "demo" /\ ~(id[4] = 1 /\ DemoPad(CanonData(id[2], SecMsgs(id[2])[id[3]])) = 0)
+ExpectOf(id, ev) ==
   LET x == ev.x IN
   IF x.r = "ok"
   THEN [r |-> "ok", e |-> "", w |-> x.w, enc |-> x.enc, re |-> x.re, sec |-> x.sec,
         tname |-> Title(SecMsgs(x.sec)[x.mi].name),
-        class |-> IF x.w = {} /\ x.enc /\ x.re = ev.in.data THEN "canon" ELSE "accept"]
-  ELSE [r |-> "err", e |-> x.e, w |-> {}, enc |-> FALSE, re |-> <<>>, sec |-> "", tname |-> "",
-        class |-> IF x.e = "unknown_id" THEN "unknown" ELSE "reject"]
+        class |-> IF Soft(id) THEN "soft"
+                  ELSE IF x.w = {} /\ x.enc /\ x.re = ev.in.data THEN "canon" ELSE "accept"]
+  ELSE IF x.r = "err"
+  THEN [r |-> "err", e |-> x.e, w |-> {}, enc |-> FALSE, re |-> <<>>, sec |-> "", tname |-> "",
+        class |-> IF Soft(id) THEN "soft" ELSE IF x.e = "unknown_id" THEN "unknown" ELSE "reject"]
+  ELSE [r |-> x.r, e |-> "", w |-> {}, enc |-> FALSE, re |-> <<>>, sec |-> "", tname |-> "", class |-> x.r]
+Expect(ev) == ExpectOf(<<"system", 0, 0, 0>>, ev)
+
+(* `encode` of a value tuple built through the public struct fields (GameNet!BuildExp): when the
+   assertions of `encode` hold, the bytes it writes are read back as the same message with the same
+   (normalised) values, without a warning, and re-encode to themselves; the assertions hold exactly
+   when the declared constraints hold, every optional member is present and no string contains NUL. So
+   encode either writes bytes that decode to the same value or panics. *)
+LawBuild(sec, mi, vals) ==
+  LET m == SecMsgs(sec)[mi] e == BuildExp(sec, m, vals) ts == SecTypes(sec, m) IN
+     /\ e.rep => (e.ok <=> /\ ValidVals(sec, m, vals) /\ EncodableVals(sec, m, vals)
+                          /\ (sec # "obj" => \A i \in DOMAIN ts : NulFree(ts[i], vals[i])))
+     /\ e.ok => LET x == ParseAny(EntryOf(sec), IF sec = "connless" THEN 0 ELSE IdOrd(m),
+                                 IF sec = "connless" THEN <<>> ELSE IdUuid(m), e.bytes) IN
+                /\ x.r = "ok" /\ x.sec = sec /\ x.mi = mi /\ x.w = {} /\ x.enc /\ x.re = e.bytes
+                /\ x.v = NormVals(sec, m, vals)
 
 (* Truncation law (checked on the canonical vector of every message and object):
    every proper prefix of a canonical encoding is either refused as too short, or -
@@ -57,15 +83,70 @@ Law(id, ev) ==
                       /\ x.enc <=> EncodableVals(sec, m, vals)
      /\ (id[3] = 0 /\ id[4] = 1) => Expect(ev).class = "canon" /\ TruncLaw(id, ev)
      /\ (id[3] = 0 /\ id[4] = 2) => x.r = "ok" /\ x.w = {"ExcessData"}
-     /\ x.r = "err" => x.e \in {"range", "cc", "intstr"}
+     /\ x.r = "err" => x.e \in {"range", "cc", "intstr"} /\ x.e = FirstErr(sec, m, vals)
      /\ (sec = "obj" /\ ~IsUuidId(m) /\ id[3] = 0) => ObjSizeOf(m.id) = Len(EncBody(sec, m, CanonVals(sec, m)))
+     /\ LawBuild(sec, id[2], vals)
 
-NameOf(id) == IF id[2] = 0 THEN <<"?">> ELSE SecMsgs(id[1])[id[2]].name
+(* Two members at key points at once: the reading succeeds iff both satisfy their constraints; a
+   violation in the earlier member is reported as such whatever the later member holds, a violation
+   in the later one is not masked by a valid or boundary value of the earlier one (first-error order:
+   the class is that of the first violated constraint in member order). *)
+LawPair(id, ev) ==
+  LET x == ev.x sec == id[2] m == SecMsgs(sec)[id[3]] vals == FVals(id) ts == SecTypes(sec, m) i == id[4] j == id[6] IN
+     /\ x.r \in {"ok", "err"}
+     /\ (x.r = "ok") <=> (ValidB(ts[i], vals[i]) /\ ValidB(ts[j], vals[j]))
+     /\ (x.r = "ok") <=> ValidVals(sec, m, vals)
+     /\ x.r = "ok" => x.sec = sec /\ x.mi = id[3] /\ x.v = vals /\ (x.enc <=> EncodableVals(sec, m, vals))
+     /\ x.r = "err" => /\ x.e = FirstErr(sec, m, vals)
+                        /\ x.e = (IF ~ValidB(ts[i], vals[i]) THEN ErrOf(ts[i], vals[i]) ELSE ErrOf(ts[j], vals[j]))
+     /\ LawBuild(sec, id[3], vals)
+
+(* Non-canonical integer encodings: an overlong integer or one with padding bits that do not reach
+   the value is read as the same value with exactly one warning, and the message re-encodes
+   canonically; with the padding bit that libtw2 moves to bit 31 the reading is still ok / err. *)
+LawIenc(id, ev) ==
+  LET x == ev.x sec == id[2] m == SecMsgs(sec)[id[3]] i == id[4] var == id[5] c == CanonVals(sec, m)
+      val == IF i = 0 THEN (IF IsUuidId(m) THEN 0 ELSE m.id * 2) + (IF sec = "system" THEN 1 ELSE 0) ELSE c[i]
+  IN /\ x.r \in {"ok", "err"}
+     /\ var \in 1..4 => /\ x.r = "ok" /\ x.sec = sec /\ x.mi = id[3] /\ x.v = c
+                         /\ x.w = (IF var = 1 THEN (IF Len(Encode(val)) < 5 THEN {"OverlongIntEncoding"} ELSE {})
+                                    ELSE {"NonZeroIntPadding"})
+                         /\ x.enc /\ x.re = CanonData(sec, m)
+     /\ (var = 5 /\ x.r = "ok") => "NonZeroIntPadding" \in x.w
+
+(* Messages stored in demo files: canonical bytes zero-padded to a multiple of four are read without a
+   warning as the same values and re-encode to the unpadded bytes; a non-zero padding byte or a whole
+   extra word gives exactly ExcessData; a length that is not a multiple of four is outside the
+   precondition. (Where a member takes the rest of the input or may be absent, the padding is read as
+   member data: only ok / err is required there.) *)
+NoTail(sec, m) == \A t \in Range(MemberTypes(m)) : t.kind \notin RawKinds \cup {"optional"}
+LawDemo(id, ev) ==
+  LET x == ev.x sec == id[2] m == SecMsgs(sec)[id[3]] var == id[4] c == CanonVals(sec, m) IN
+  IF var = 6 THEN x.r = "precond" ELSE
+     /\ x.r \in {"ok", "err"}
+     /\ NoTail(sec, m) => /\ x.r = "ok" /\ x.sec = sec /\ x.mi = id[3] /\ x.v = c
+                          /\ x.w = (IF var = 1 THEN {} ELSE {"ExcessData"})
+                          /\ x.enc /\ x.re = CanonData(sec, m)
+
+LawAny(id, ev) == CASE Fam(id) = "main"  -> Law(id, ev)
+                    [] Fam(id) = "pair"  -> LawPair(id, ev)
+                    [] Fam(id) = "ienc"  -> LawIenc(id, ev)
+                    [] Fam(id) = "demo"  -> LawDemo(id, ev)
+                    [] Fam(id) = "build" -> LawBuild(id[2], id[3], FVals(id))
+
+NameOf(id) == IF FMi(id) = 0 THEN <<"?">> ELSE SecMsgs(FSec(id))[FMi(id)].name
+\* vals / bexp: the value tuple for `encode` through the struct fields and what the spec expects of it
+HasBuild(id) == Fam(id) \in {"main", "pair", "build"} /\ FMi(id) # 0
 VecOut(id, ev) ==
-  [id |-> id, name |-> NameOf(id), tag |-> VecTag(id), entry |-> EntryOf(id[1]),
+  [id |-> id, fam |-> Fam(id), sec |-> FSec(id), mi |-> FMi(id), name |-> NameOf(id), tag |-> FTag(id),
+   entry |-> FEntry(id), canonvec |-> Fam(id) = "main" /\ id[3] = 0 /\ id[4] = 1,
    ord |-> ev.in.ord, uuid |-> ev.in.uuid, data |-> ev.in.data,
-   size |-> IF id[1] = "obj" THEN ObjSizeOf(ev.in.ord) ELSE -1,
-   exp |-> Expect(ev)]
+   size |-> IF FSec(id) = "obj" THEN ObjSizeOf(ev.in.ord) ELSE -1,
+   exp |-> ExpectOf(id, ev),
+   hasb |-> HasBuild(id),
+   vals |-> IF HasBuild(id) THEN FVals(id) ELSE <<>>,
+   bexp |-> IF HasBuild(id) THEN BuildExp(FSec(id), SecMsgs(FSec(id))[FMi(id)], FVals(id))
+            ELSE [rep |-> FALSE, ok |-> FALSE, bytes |-> <<>>]]
 
 UncoveredList == LET S == Uncovered IN
                  [k \in 1..Cardinality(S) |->
@@ -85,14 +166,21 @@ AllKinds == UNION {UNION {UNION {KindsIn(t) : t \in Range(SecTypes(sec, SecMsgs(
 KindVectors == [k \in AllKinds |->
                  Cardinality({id \in VecIds : id[2] # 0 /\ id[3] # 0 /\ id[4] # 0
                                                /\ k \in KindsIn(SecTypes(id[1], SecMsgs(id[1])[id[2]])[id[3]])})]
+\* vectors per family, and how many demo vectors exist per padding length (vacuity: all of 0..3 occur)
+FamCounts == [main |-> Cardinality(AllIds \cap VecIds), pair |-> Cardinality(AllIds \cap PairIds),
+              ienc |-> Cardinality(AllIds \cap IencIds), demo |-> Cardinality(AllIds \cap DemoIds),
+              build |-> Cardinality(AllIds \cap BuildIds)]
+DemoPads == [p \in 0..3 |-> Cardinality({id \in DemoIds : id[4] = 1 /\ DemoPad(CanonData(id[2], SecMsgs(id[2])[id[3]])) = p})]
+ASSUME PrintT(<<"F", ToJson(FamCounts)>>)
+ASSUME HasFam("demo") => PrintT(<<"D", ToJson(DemoPads)>>) /\ \A p \in 0..3 : DemoPads[p] > 0
 ASSUME PrintT(<<"K", ToJson(KindVectors)>>)
 ASSUME \A k \in AllKinds : KindVectors[k] > 0 \/ Uncovered # {}
 ASSUME PrintT(<<"U", ToJson(UncoveredList)>>)
 ASSUME PrintT(<<"N", ToJson(Counts)>>)
 
 VARIABLE vec
-Init == vec \in VecIds
+Init == vec \in AllIds
 Next == UNCHANGED vec
-LawInv == Law(vec, Eval(vec))
-ExpInv == LET ev == Eval(vec) IN Law(vec, ev) /\ PrintT(<<"V", ToJson(VecOut(vec, ev))>>)
+LawInv == LawAny(vec, Eval(vec))
+ExpInv == LET ev == Eval(vec) IN LawAny(vec, ev) /\ PrintT(<<"V", ToJson(VecOut(vec, ev))>>)
 =============================================================================
